@@ -23,7 +23,7 @@ def make_fn(sim, i, raises):
             raise ValueError(i)
         return ("v", i) + tuple(args) + tuple(sorted(kwargs.items()))
     f._sim_id = i
-    f.__name__ = "f%d" % i
+    f.__name__ = "c%dx" % i
     return f
 
 
@@ -32,6 +32,8 @@ def build_executor(case):
     from executorlib.standalone.interactive.spawner import MpiExecSpawner
     mode = case["mode"]
     ek = dict(case.get("executor_kwargs", {}))
+    if case.get("cache") and mode in ("block", "step"):
+        ek["cache_directory"] = case["_cache_dir"]
     if mode == "block":
         return InteractiveExecutor(max_workers=case.get("workers", 1), executor_kwargs=ek, spawner=MpiExecSpawner)
     if mode == "step":
@@ -41,6 +43,11 @@ def build_executor(case):
             from executorlib.standalone.interactive.spawner import SrunSpawner as sp
         return InteractiveStepExecutor(max_cores=case.get("max_cores"), max_workers=case.get("max_workers"),
                                        executor_kwargs=ek, spawner=sp)
+    if mode == "file":
+        from executorlib.cache.executor import FileExecutor
+        from executorlib.cache.subprocess_spawner import execute_in_subprocess
+        return FileExecutor(cache_directory=case["_cache_dir"], execute_function=execute_in_subprocess,
+                            resource_dict=dict(case.get("resource_dict", {})) or None)
     if mode == "exec":
         from executorlib import Executor
         return Executor(**case["kwargs"])
@@ -92,17 +99,47 @@ def value_repr(f):
     return conv(_F.result(f, timeout=0))
 
 
+def dir_snapshot(d):
+    """files of the cache directory with their dataset names (h5py stand-in format)"""
+    out = {}
+    try:
+        import h5py
+        import sim
+        import hashlib
+        for fn in sorted(os.listdir(d)):
+            try:
+                recs = h5py._read(os.path.join(d, fn))
+                out[sim.file_tag(fn)] = [n for n, _ in recs] + ["#" + hashlib.sha1(b"".join(b for _, b in recs)).hexdigest()[:10]]
+            except Exception:  # noqa
+                out[sim.file_tag(fn)] = ["?"]
+    except Exception:  # noqa
+        pass
+    return out
+
+
 def run_case(case):
+    import shutil
+    import tempfile
     import sim
     ctl = sim.install(case.get("schedule", []), case.get("step_limit", 3000))
     ctl.stall_timeout = case.get("stall_timeout", 20)
     calls = case["calls"]
     futs = {}
-    outcomes = []
-    snaps = []
+    fns = {}
     passed = {}
+    cache_dir = tempfile.mkdtemp(prefix="verif-sim-")
+    case["_cache_dir"] = cache_dir
+    sessions = case.get("sessions") or [{"ops": case["ops"], "crash": case.get("crash")}]
+    sess_out = []
 
-    def program():
+    def fn_for(i):
+        c = calls[i - 1]
+        j = c.get("same_as", i)
+        if j not in fns:
+            fns[j] = make_fn(sim, j, calls[j - 1].get("raises", False))
+        return fns[j]
+
+    def program(ops, outcomes, snaps):
         ex = None
         try:
             ex = build_executor(case)
@@ -110,14 +147,15 @@ def run_case(case):
             outcomes.append(["construct", "raise:" + type(e).__name__])
             return
         outcomes.append(["construct", "ok"])
-        for op in case["ops"]:
+        for op in ops:
             kind = op[0]
             try:
                 if kind == "submit":
                     i = op[1]
                     c = calls[i - 1]
-                    fn = make_fn(sim, i, c.get("raises", False))
+                    fn = fn_for(i)
                     args = [futs[d] if d in futs else ("missing", d) for d in c.get("deps", [])]
+                    args += list(c.get("args", []))
                     if c.get("nest"):
                         args = [args]
                     kw = {}
@@ -125,6 +163,7 @@ def run_case(case):
                         kw["resource_dict"] = json.loads(json.dumps(c["res"]))
                         passed[i] = kw["resource_dict"]
                     futs[i] = ex.submit(fn, *args, **kw)
+                    futs[i]._call_id = i
                     outcomes.append(["submit", i, "ok"])
                 elif kind in ("cancel", "result") and op[1] not in futs:
                     outcomes.append([kind, op[1], "skip"])
@@ -138,8 +177,6 @@ def run_case(case):
                     except BaseException as e:  # noqa
                         if isinstance(e, sim.StopSim):
                             raise
-                        # do not let the caught exception's traceback keep this frame (and with it
-                        # the executor) alive: the exception object is stored in the future
                         e.__traceback__ = None
                         from concurrent.futures import Future as _F
                         if _F.cancelled(futs[op[1]]):
@@ -166,43 +203,63 @@ def run_case(case):
             except Exception as e:  # noqa
                 outcomes.append([kind] + list(op[1:2]) + ["raise:" + type(e).__name__])
                 if kind in ("shutdown", "exit"):
-                    # a shutdown that re-raised a worker's exception: the traceback stored in the
-                    # thread object keeps the executor alive (no __del__); made explicit here so
-                    # that it does not depend on what later clears tracebacks
                     LEAK.append(ex)
         outcomes.append(["end"])
 
-    m = ctl.register("M")
+    for si, sess in enumerate(sessions):
+        outcomes, snaps = [], []
+        ctl.stopped = False
+        ctl.verdict = None
+        ctl.crash = dict(sess["crash"]) if sess.get("crash") else None
+        ctl.session_start = len(ctl.log)
+        m = ctl.register("M")
 
-    def mbody():
-        ctl.bind(m)
-        try:
-            sim.point(("mbegin",))
-            program()
-        except sim.StopSim:
-            pass
-        except BaseException:  # noqa
-            outcomes.append(["harness-error", traceback.format_exc()])
-        finally:
-            ctl.finish(m)
+        def mbody(m=m, ops=sess["ops"], outcomes=outcomes, snaps=snaps):
+            ctl.bind(m)
+            try:
+                sim.point(("mbegin",))
+                program(ops, outcomes, snaps)
+            except sim.StopSim:
+                pass
+            except BaseException:  # noqa
+                outcomes.append(["harness-error", traceback.format_exc()])
+            finally:
+                ctl.finish(m)
 
-    t = threading.Thread(target=mbody, daemon=True)
-    t.start()
-    ctl.run()
+        t = threading.Thread(target=mbody, daemon=True)
+        t.start()
+        ctl.run()
+        sess_out.append({"verdict": ctl.verdict, "outcomes": outcomes, "snaps": snaps, "steps": len(ctl.log),
+                         "dir": dir_snapshot(cache_dir),
+                         "futures": {str(getattr(f, "_call_id", 0) or f.fid): f.obs() for f in ctl.futures}})
+        if si < len(sessions) - 1:
+            ctl.kill_all()
+    last = sess_out[-1]
+    by_call = {}
+    for f in ctl.futures:
+        cid = getattr(f, "_call_id", None)
+        if cid is not None:
+            by_call[str(cid)] = f
     res = {
-        "verdict": ctl.verdict,
+        "verdict": last["verdict"],
         "trace": [[en, pick, list(lab)] for en, pick, lab in ctl.log],
-        "outcomes": outcomes,
-        "snaps": snaps,
+        "outcomes": last["outcomes"],
+        "snaps": last["snaps"],
+        "sessions": sess_out,
         "passed_res": {str(i): d for i, d in passed.items()},
         "submit_defaults": submit_defaults(),
         "futures": {str(f.fid): f.obs() for f in ctl.futures},
         "values": {str(f.fid): value_repr(f) for f in ctl.futures},
+        "call_futures": {k: f.obs() for k, f in by_call.items()},
+        "call_values": {k: value_repr(f) for k, f in by_call.items()},
         "ents": {n: [e.state, e.exc] for n, e in ctl.ents.items()},
         "procs": {p.name: {"alive": p.alive(), "script": p.script, "cwd": p.cwd, "argv": p.args} for p in ctl.procs},
         "queues": [{"qid": q.qid, "unf": q.unf, "items": [sim.item_desc(i) for i in q.items]} for q in ctl.queues],
         "parked": {k: list(v) for k, v in ctl.parked_ops().items()},
+        "dir": dir_snapshot(cache_dir),
+        "install_error": ctl.extra.get("install_error"),
     }
+    shutil.rmtree(cache_dir, ignore_errors=True)
     return res
 
 
@@ -211,6 +268,11 @@ def run_forked(case, timeout=60):
     pid = os.fork()
     if pid == 0:
         os.close(r)
+        try:
+            dn = os.open(os.devnull, os.O_WRONLY)
+            os.dup2(dn, 2)       # "Exception ignored in __del__" chatter of killed entities
+        except OSError:
+            pass
         try:
             out = run_case(case)
         except BaseException:  # noqa
